@@ -812,6 +812,7 @@ struct family_t
     std::vector<std::vector<int>>      cs;   ///< objective vectors
     std::vector<std::vector<int>>      Qs;   ///< n=2 only: distinct non-zero D'D
     std::vector<std::vector<double>>   grid; ///< candidate user x0, by increasing norm
+    bool                               pairs = false; ///< equality entries are pairs of rows (possibly dependent / inconsistent)
 
     void add_block(const std::string& name, const std::vector<atom_t>& atoms, const int size)
     {
@@ -982,6 +983,88 @@ family_t make_family3(const bool four_rows)
     return F;
 }
 
+/// equality-row PAIRS: all unordered pairs (a row may be paired with itself) over rows x right-hand sides; contains
+/// parallel rows with inconsistent right-hand sides, scaled / negated consistent duplicates and independent pairs
+void add_equality_pairs(family_t& F, const std::vector<std::vector<int>>& rows, const std::vector<int>& rhs)
+{
+    std::vector<std::vector<int>> atoms;
+    for (const auto& r : rows)
+    {
+        for (const auto b : rhs)
+        {
+            auto a = r;
+            a.push_back(b);
+            atoms.push_back(a);
+        }
+    }
+    F.eqs.clear();
+    for (size_t i = 0; i < atoms.size(); ++i)
+    {
+        for (size_t j = i; j < atoms.size(); ++j)
+        {
+            auto e = atoms[i];
+            e.insert(e.end(), atoms[j].begin(), atoms[j].end());
+            F.eqs.push_back(e);
+        }
+    }
+    F.pairs = true;
+}
+
+/// n=2, two equality rows, m in {1,2} inequality rows over a thinned alphabet
+family_t make_family2e(const bool thorough, const bool quad)
+{
+    family_t F;
+    F.n = 2;
+    const std::vector<std::array<int, 3>> rows = {{1, 0, 0}, {0, 1, 0}, {-1, 0, 0}, {0, -1, 0}, {1, 1, 0}, {-1, -1, 0}};
+    std::vector<atom_t>                   atoms;
+    for (const auto& r : rows)
+    {
+        for (const int h : thorough ? std::vector<int>{0, 1, 2} : std::vector<int>{0, 2})
+        {
+            atoms.push_back({r, h});
+        }
+    }
+    F.add_block("m=1", atoms, 1);
+    F.add_block("m=2", atoms, 2);
+    add_equality_pairs(F, {{1, 1}, {1, -1}, {1, 0}, {2, 2}, {-1, -1}, {2, -2}}, {0, 1, 2});
+    const auto full = make_family2();
+    if (quad)
+    {
+        // E1 (rank 1), J = (1,1)'(1,1) (rank 1), I, [[2,1],[1,1]]
+        F.Qs = {{1, 0, 0, 0}, {1, 1, 1, 1}, {1, 0, 0, 1}, {2, 1, 1, 1}};
+        F.cs = thorough ? full.cs : std::vector<std::vector<int>>{{1, 0}, {0, -1}, {1, 1}, {-1, 1}};
+    }
+    else
+    {
+        F.cs = full.cs;
+    }
+    F.make_grid(4, 3);
+    return F;
+}
+
+/// n=3, two equality rows, m in {1,2} inequality rows over a small alphabet
+family_t make_family3e()
+{
+    family_t F;
+    F.n = 3;
+    const std::vector<std::array<int, 3>> rows = {{1, 0, 0},  {0, 1, 0},  {0, 0, 1},  {-1, 0, 0},
+                                                  {0, -1, 0}, {0, 0, -1}, {1, 1, 1},  {-1, -1, -1}};
+    std::vector<atom_t>                   atoms;
+    for (const auto& r : rows)
+    {
+        for (const int h : {0, 1})
+        {
+            atoms.push_back({r, h});
+        }
+    }
+    F.add_block("m=1", atoms, 1);
+    F.add_block("m=2", atoms, 2);
+    add_equality_pairs(F, {{1, 1, 1}, {1, -1, 0}, {0, 0, 1}, {2, 2, 2}}, {0, 1, 2});
+    F.cs = {{1, 0, 0}, {-1, 0, 0}, {0, 1, -1}, {-1, -1, 0}, {1, 1, 1}, {-1, -1, -1}};
+    F.make_grid(2, 3);
+    return F;
+}
+
 iprog_t make_iprog(const family_t& F, const std::vector<atom_t>& set, const std::vector<int>& eq,
                    const std::vector<int>& c, const std::vector<int>* Q)
 {
@@ -992,10 +1075,12 @@ iprog_t make_iprog(const family_t& F, const std::vector<atom_t>& set, const std:
         P.Q = *Q;
     }
     P.c = c;
-    if (!eq.empty())
+    // an equality entry is a flat list of rows (a_1..a_n, b)
+    const auto w = static_cast<size_t>(F.n) + 1;
+    for (size_t r0 = 0; r0 + w <= eq.size(); r0 += w)
     {
-        P.A.assign(eq.begin(), eq.begin() + F.n);
-        P.b = {eq[static_cast<size_t>(F.n)]};
+        P.A.insert(P.A.end(), eq.begin() + static_cast<long>(r0), eq.begin() + static_cast<long>(r0 + w - 1));
+        P.b.push_back(eq[r0 + w - 1]);
     }
     for (const auto& a : set)
     {
@@ -1325,6 +1410,10 @@ iprog_t program_of(const small_lattice_t& L, const std::vector<uint64_t>& d)
 std::string family_key(const small_lattice_t& L, const iprog_t& P)
 {
     std::string k = L.quad ? "qp" : "lp";
+    if (L.F->pairs)
+    {
+        k += "-eq2";
+    }
     if (P.m() == 0)
     {
         k += "-noineq";
@@ -1337,10 +1426,16 @@ void stage_small(report_t& r, const args_t& args)
     const auto F2 = make_family2();
     const auto F3 = make_family3(false);
     const auto F4 = make_family3(true);
+    const auto E2l = make_family2e(args.thorough(), false);
+    const auto E2q = make_family2e(args.thorough(), true);
+    const auto E3  = make_family3e();
 
     std::vector<small_lattice_t> lattices;
     lattices.push_back(make_small_lattice("lp2", F2, false, 0, F2.sets_upto("m=3")));
     lattices.push_back(make_small_lattice("qp2", F2, true, 0, F2.sets_upto(args.thorough() ? "m=3" : "m=2")));
+    lattices.push_back(make_small_lattice("lp2e", E2l, false, 0, E2l.sets_upto("m=2")));
+    lattices.push_back(make_small_lattice("qp2e", E2q, true, 0, E2q.sets_upto("m=2")));
+    lattices.push_back(make_small_lattice("lp3e", E3, false, 0, E3.sets_upto("m=2")));
     if (args.thorough())
     {
         lattices.push_back(make_small_lattice("lp3", F3, false, 0, F3.sets_upto("m=3")));
@@ -1474,10 +1569,16 @@ void stage_oracle(report_t& r, const args_t& args)
     const auto F2 = make_family2();
     const auto F3 = make_family3(false);
     const auto F4 = make_family3(true);
+    const auto E2l = make_family2e(args.thorough(), false);
+    const auto E2q = make_family2e(args.thorough(), true);
+    const auto E3  = make_family3e();
 
     std::vector<small_lattice_t> lattices;
     lattices.push_back(make_small_lattice("lp2", F2, false, 0, F2.sets_upto("m=3")));
     lattices.push_back(make_small_lattice("qp2", F2, true, 0, F2.sets_upto(args.thorough() ? "m=3" : "m=2")));
+    lattices.push_back(make_small_lattice("lp2e", E2l, false, 0, E2l.sets_upto("m=2")));
+    lattices.push_back(make_small_lattice("qp2e", E2q, true, 0, E2q.sets_upto("m=2")));
+    lattices.push_back(make_small_lattice("lp3e", E3, false, 0, E3.sets_upto("m=2")));
     if (args.thorough())
     {
         lattices.push_back(make_small_lattice("lp3", F3, false, 0, F3.sets_upto("m=3")));
@@ -1490,9 +1591,9 @@ void stage_oracle(report_t& r, const args_t& args)
     for (const auto& L : lattices)
     {
         L.lat.describe(r, L.tag + ".");
-        const bool two_sided = L.F->n == 2;
+        const bool two_sided = L.F->n == 2 && !L.F->pairs; // pairs like x1+x2=1/2 & x1-x2=0 meet off the grid
         // the n=3 grid (33^3 points) is evaluated on every 101st program
-        const uint64_t stride = L.F->n == 2 ? 1 : 101;
+        const uint64_t stride = L.F->n == 2 ? 1 : (L.F->pairs ? 11 : 101);
         for_each_case(
             L.lat, r, L.tag,
             [&](const uint64_t index, const std::vector<uint64_t>& d)
@@ -2160,6 +2261,28 @@ int self_test()
         if (!found || Dq.fstar != c04::rat(-1))
         {
             std::fprintf(stderr, "self-test: equality clause\n");
+            return 2;
+        }
+    }
+    // rank-deficient equality systems: inconsistent parallel rows (Farkas certificate) and a scaled duplicate
+    {
+        iprog_t bad = ip;
+        bad.A       = {1, 1, 1, 1};
+        bad.b       = {1, 2};
+        iprog_t dup = ip;
+        dup.A       = {1, -1, 2, -2};
+        dup.b       = {0, 0};
+        iprog_t off = ip;
+        off.A       = {1, -1, 2, -2};
+        off.b       = {0, 1};
+        const auto Db = c04::decide(bad.rational());
+        const auto Dd = c04::decide(dup.rational());
+        const auto Do = c04::decide(off.rational());
+        if (Db.v != c04::verdict::infeasible || !c04::verify(bad.rational(), Db) || Dd.v != c04::verdict::optimal ||
+            Dd.fstar != c04::rat(-1) || !c04::verify(dup.rational(), Dd) || Do.v != c04::verdict::infeasible ||
+            !c04::verify(off.rational(), Do))
+        {
+            std::fprintf(stderr, "self-test: rank-deficient equality rows\n");
             return 2;
         }
     }
